@@ -269,9 +269,13 @@ def _done_test(cfg, L):
             rows.append(cfg.eval3(n.ast.test, {tv: a, uv: b}, nid))
         names = {x.id for x in ast.walk(n.ast.test) if isinstance(x, ast.Name)}
         if rows == [True, True, True, False]:
-            out.append(nid)
+            out.append((nid, True))
+        elif rows == [False, False, False, True]:
+            out.append((nid, False))   # `if not done: ... continue`: the episode-end code is the False arm
         elif rows[2] is True and rows[3] is False and ({tv, uv} & names or rows[0] is not None):
-            out.append(nid)  # e.g. `if terminated:` - incomplete test, judged by R3; still the episode-end branch for counting
+            out.append((nid, True))  # e.g. `if terminated:` - incomplete test, judged by R3; still the episode-end branch for counting
+        elif rows[2] is False and rows[3] is True and ({tv, uv} & names or rows[0] is not None):
+            out.append((nid, False))
     return sorted(out)
 
 
@@ -324,12 +328,12 @@ def r2_episodes(ck, repo, L):
                     events[m.id] = ("set", d.value.value)
                 else:
                     raise AnalysisError(f"{site}: unrecognised definition of episode counter `{epi}`: {short(s)}")
-        ctrl = [b for b, lab in cfg.control_deps(n.id) if b in done_nodes and lab is True]
-        the_done = ctrl[0] if ctrl else min(done_nodes)
+        ctrl = [(b, lab) for b, lab in cfg.control_deps(n.id) if (b, lab) in done_nodes]
+        the_done, done_lab = ctrl[0] if ctrl else min(done_nodes)
 
         def transfer(nid, succ, lab, st):
             d = st
-            if nid == the_done and lab is True:
+            if nid == the_done and lab is done_lab:
                 d = d + 1
             ev = events.get(nid)
             if ev:
@@ -347,7 +351,12 @@ def r2_episodes(ck, repo, L):
         ck.ob("R2-episodes", site, "limit-exits-loop", p is None, f"True arm of `{short(n.ast.test)}`", "" if p is None else "env.step is still reachable after the episode limit was reached", where,
               cfg.describe_path(p) if p else None)
         # the test is inside the episode-end branch
-        inside = any((dnid, True) in cfg.control_deps(n.id) for dnid in done_nodes)
+        # semantic reading: after a step whose episode did not end the limit test is not reached before the next step, and after a step
+        # that ended the episode it is
+        tv_, uv_ = L.pos.get(2), L.pos.get(3)
+        not_done = cfg.paths_avoiding(L.step_node, n.id, {L.step_node}, assume={tv_: False, uv_: False})
+        some_done = any(cfg.paths_avoiding(L.step_node, n.id, {L.step_node}, assume={tv_: a, uv_: b}) is not None for a, b in ((True, False), (False, True)))
+        inside = some_done and (not_done is None or any(dl in cfg.control_deps(n.id) for dl in done_nodes))
         ck.ob("R2-episodes", site, "tested-at-episode-end", inside, f"`{short(cmp)}` under the episode-end test", "" if inside else "episode limit is not tested when an episode ends", where)
 
 
